@@ -665,3 +665,5 @@ package mcp
 //@   before call applyHTTPBeforeRequest#1 assert[C19 every-static-header-key-visited] yielded(1) == len(t.httpHeaders)
 //@   before call Handle#1 assert[C19 before-request-exactly-once] t.client != nil && t.client.httpBeforeRequestFunc != nil ==> beforecnt(httpReq) == 1
 //@   before call Handle#1 assert[C19 nothing-is-sent-after-a-before-request-error] isnil(beforeerr(httpReq))
+//@ type streamableHTTPClientTransport
+//@   invariant[C19 an-issued-session-id-is-never-dropped-by-switching-to-stateless] self.sessionID != "" ==> !self.isStateless
